@@ -204,4 +204,151 @@ mod n {
             c.sample(|| format!("week {:?} -> {:?}", days_list, db.week[0].values.iter().map(|v| v.1).collect::<Vec<_>>()));
         });
     }
+
+    // ---- C03: conversion preserves geometry --------------------------------------------------------------------
+    // The shipped `cubo` project (10 x 10 x 3 box: four walls on the edges of the space outline, a floor taken from the
+    // outline, two polygon-defined roofs, windows, vertex-defined shades) is re-written with a space offset and a
+    // building deviation and converted with the real parser + converter. Oracle: the source definition itself.
+    const CUBO: &str = include_str!(concat!(env!("CARGO_MANIFEST_DIR"), "/../hulc_tests/tests/cubo/cubo.ctehexml"));
+
+    fn cubo_variant(off: (f32, f32, f32), dev: f32, outline: &[(f32, f32)]) -> String {
+        let mut s = CUBO.to_string();
+        // building deviation from north (clockwise, degrees)
+        let bp = s.find("= BUILD-PARAMETERS").expect("BUILD-PARAMETERS");
+        let az = bp + s[bp..].find("AZIMUTH   = 0.000000").expect("AZIMUTH");
+        s.replace_range(az..az + "AZIMUTH   = 0.000000".len(), &format!("AZIMUTH   = {:.6}", dev));
+        // space offset
+        let sp = s.find("\"P01_E01\" = SPACE").expect("SPACE");
+        let eol = sp + s[sp..].find('\n').unwrap();
+        s.insert_str(eol + 1, &format!("            X = {}\n            Y = {}\n            Z = {}\n", off.0, off.1, off.2));
+        // space outline
+        let pg = s.find("\"P01_E01_Pol2\" = POLYGON").expect("space polygon");
+        let end = pg + s[pg..].find("..").unwrap();
+        let mut txt = String::from("\"P01_E01_Pol2\" = POLYGON\n");
+        for (i, (x, y)) in outline.iter().enumerate() {
+            txt.push_str(&format!("    V{}   =( {}, {} )\n", i + 1, x, y));
+        }
+        txt.push_str("    ");
+        s.replace_range(pg..end, &txt);
+        s
+    }
+
+    fn world_corners(g: &WallGeom) -> Vec<Point3<f32>> {
+        let m = g.to_global_coords_matrix().expect("positioned");
+        g.polygon.iter().map(|p| m * point![p.x, p.y, 0.0]).collect()
+    }
+
+    fn same_set(a: &[Point3<f32>], b: &[Point3<f32>], tol: f32) -> bool {
+        a.iter().all(|p| b.iter().any(|q| (p - q).norm() <= tol)) && b.iter().all(|q| a.iter().any(|p| (p - q).norm() <= tol))
+    }
+
+    #[test]
+    fn n_c03_conversion() {
+        drive("C03.conversion", "shipped project `cubo` re-written with space offset {(0,0,0),(3,7,0),(-4,2,1.5)} x building deviation {0,30,135,270} x outline {square 10x10, trapezoid}; parsed and converted by the real code; positions to 1 cm against the source definition", |c| {
+            let off = c.of(&[(0.0f32, 0.0f32, 0.0f32), (3.0, 7.0, 0.0), (-4.0, 2.0, 1.5)]);
+            let dev = c.of(&[0.0f32, 30.0, 135.0, 270.0]);
+            let square = c.flag();
+            let outline: Vec<(f32, f32)> = if square { vec![(0.0, 0.0), (10.0, 0.0), (10.0, 10.0), (0.0, 10.0)] } else { vec![(0.0, 0.0), (10.0, 0.0), (8.0, 6.0), (1.0, 7.0)] };
+            c.note(format!("offset {:?} deviation {} outline {:?}", off, dev, outline));
+            let text = cubo_variant(off, dev, &outline);
+            let data = match hulc::ctehexml::parse_with_catalog(&text) {
+                Ok(d) => d,
+                Err(e) => {
+                    c.check("C03.conversion.parses", false, || format!("parse failed: {}", e));
+                    return;
+                }
+            };
+            let model = match Model::try_from(&data) {
+                Ok(m) => m,
+                Err(e) => {
+                    c.check("C03.conversion.converts", false, || format!("conversion failed: {}", e));
+                    return;
+                }
+            };
+            // building coordinates -> world: turn clockwise by the deviation
+            let rot = Rotation3::from_euler_angles(0.0, 0.0, -(dev as f32).to_radians());
+            let to_world = |x: f32, y: f32, z: f32| rot * point![x + off.0, y + off.1, z + off.2];
+            let centroid = {
+                let n = outline.len() as f32;
+                let (sx, sy) = outline.iter().fold((0.0, 0.0), |a, p| (a.0 + p.0, a.1 + p.1));
+                to_world(sx / n, sy / n, 1.5)
+            };
+            let height = 3.0f32;
+            let mut n_edge = 0;
+            for bw in &data.bdldata.walls {
+                let w = match model.walls.iter().find(|w| w.name == bw.name) {
+                    Some(w) => w,
+                    None => {
+                        c.check("C03.conversion.all_walls", false, || format!("wall {} missing in the model", bw.name));
+                        continue;
+                    }
+                };
+                let got = world_corners(&w.geometry);
+                match bw.location.as_deref() {
+                    Some(loc) if loc.starts_with('V') => {
+                        let k: usize = loc[1..].parse::<usize>().unwrap() - 1;
+                        let (p, q) = (outline[k], outline[(k + 1) % outline.len()]);
+                        let want = vec![to_world(p.0, p.1, 0.0), to_world(q.0, q.1, 0.0), to_world(q.0, q.1, height), to_world(p.0, p.1, height)];
+                        c.check("C03.edge_wall.spans_edge", same_set(&got, &want, 0.01), || format!("wall {} on {}: corners {:?} want {:?}", bw.name, loc, got, want));
+                        let mid = to_world((p.0 + q.0) / 2.0, (p.1 + q.1) / 2.0, 1.5);
+                        let nrm = crate::types::HasSurface::normal(&w.geometry);
+                        c.check("C03.edge_wall.normal_outward", nrm.dot(&(mid - centroid)) > 0.0 && nrm.z.abs() < 1e-3, || format!("wall {} normal {:?} does not point away from the space", bw.name, nrm));
+                        let len = ((q.0 - p.0).powi(2) + (q.1 - p.1).powi(2)).sqrt();
+                        c.check("C03.area", (w.area() - len * height).abs() <= 0.02, || format!("wall {} area {} want {}", bw.name, w.area(), len * height));
+                        n_edge += 1;
+                    }
+                    Some("BOTTOM") => {
+                        let want: Vec<_> = outline.iter().map(|p| to_world(p.0, p.1, 0.0)).collect();
+                        c.check("C03.floor.reproduces_outline", same_set(&got, &want, 0.01), || format!("floor {}: corners {:?} want {:?}", bw.name, got, want));
+                        let a = {
+                            let n = outline.len();
+                            (0..n).map(|i| outline[i].0 * outline[(i + 1) % n].1 - outline[i].1 * outline[(i + 1) % n].0).sum::<f32>().abs() / 2.0
+                        };
+                        c.check("C03.area", (w.area() - a).abs() <= 0.02, || format!("floor area {} want {}", w.area(), a));
+                    }
+                    _ => {
+                        // polygon-defined roofs of the source project: they tile the 10 x 10 outline at ceiling level
+                        if square && bw.polygon.is_some() {
+                            let sq: Vec<_> = outline.iter().map(|p| to_world(p.0, p.1, height)).collect();
+                            c.check("C03.roof.corners", got.iter().all(|p| sq.iter().any(|q| (p - q).norm() <= 0.02)), || format!("roof {}: corners {:?} not on the outline at ceiling level {:?}", bw.name, got, sq));
+                        }
+                    }
+                }
+            }
+            c.check("C03.conversion.edge_walls_seen", n_edge == 4, || format!("{} edge walls", n_edge));
+            // windows keep size, offset and setback within their wall
+            for bwin in &data.bdldata.windows {
+                match model.windows.iter().find(|w| w.name == bwin.name) {
+                    None => c.check("C03.window.present", false, || format!("window {} missing", bwin.name)),
+                    Some(w) => {
+                        let g = &w.geometry;
+                        c.check("C03.window.keeps_geometry", (g.width - bwin.width).abs() < 0.01 && (g.height - bwin.height).abs() < 0.01 && (g.setback - bwin.setback).abs() < 0.01 && matches!(g.position, Some(p) if (p.x - bwin.x).abs() < 0.01 && (p.y - bwin.y).abs() < 0.01), || format!("window {}: {:?} vs source ({}, {}) {}x{} setback {}", bwin.name, g, bwin.x, bwin.y, bwin.width, bwin.height, bwin.setback));
+                    }
+                }
+            }
+            // vertex-defined shades keep their corner points (building coordinates turned by the deviation)
+            for sh in &data.bdldata.shadings {
+                if let Some(ms) = model.shades.iter().find(|m| m.name == sh.name) {
+                    if let Some(verts) = &sh.vertices {
+                        let want: Vec<_> = verts.iter().map(|v| rot * point![v.x, v.y, v.z]).collect();
+                        let got = world_corners(&ms.geometry);
+                        c.check("C03.shade.corners", same_set(&got, &want, 0.011), || format!("shade {}: corners {:?} want {:?}", sh.name, got, want));
+                    }
+                }
+            }
+            // turning the building leaves areas, volumes, K and n50 unchanged (compared with the unturned variant)
+            if dev != 0.0 {
+                let base = Model::try_from(&hulc::ctehexml::parse_with_catalog(&cubo_variant(off, 0.0, &outline)).unwrap()).unwrap();
+                let (a, b) = (model.energy_indicators(), base.energy_indicators());
+                c.check("C03.rotation.invariants", (a.area_ref - b.area_ref).abs() < 0.011 && (a.vol_env_net - b.vol_env_net).abs() < 0.011 && (a.K_data.K - b.K_data.K).abs() < 1e-3 && (a.n50_data.n50 - b.n50_data.n50).abs() < 1e-3, || format!("turned by {}: A {} / {} V {} / {} K {} / {} n50 {} / {}", dev, a.area_ref, b.area_ref, a.vol_env_net, b.vol_env_net, a.K_data.K, b.K_data.K, a.n50_data.n50, b.n50_data.n50));
+                // every azimuth shifts by -dev (mod 360)
+                for (w, w0) in model.walls.iter().zip(base.walls.iter()) {
+                    let d = (w0.geometry.azimuth - w.geometry.azimuth - dev).rem_euclid(360.0);
+                    c.check("C03.rotation.azimuth_shift", d < 0.02 || d > 359.98, || format!("wall {}: azimuth {} -> {} after turning by {}", w.name, w0.geometry.azimuth, w.geometry.azimuth, dev));
+                }
+            }
+            c.nontrivial(format!("{:?} {} {}", off, dev, square));
+            c.sample(|| format!("offset {:?} deviation {} square {} -> {} walls {} windows {} shades", off, dev, square, model.walls.len(), model.windows.len(), model.shades.len()));
+        });
+    }
 }
